@@ -669,7 +669,7 @@ func (ex *Exec) posStr(in ssa.Instruction) string {
 }
 
 func shortFile(f string) string {
-	return strings.TrimPrefix(f, "/repo/")
+	return strings.TrimPrefix(f, repoDir+"/")
 }
 
 func (ex *Exec) instr(fr *Frame, in ssa.Instruction, st *State, reach *Term) {
@@ -982,17 +982,26 @@ func (ex *Exec) closureAxiom(comp string, h *Term, alloc *Term) *Term {
 	case strings.HasPrefix(comp, "F:"):
 		r := Const(fmt.Sprintf("cr?%d", k), SInt)
 		b := ex.ptrBound(Select(h, r), typ, alloc)
-		return Forall([]*Term{r}, b)
+		if b == True {
+			return True
+		}
+		return Forall([]*Term{r}, Implies(And(Le(IntLit(0), r), Lt(r, alloc)), b))
 	case strings.HasPrefix(comp, "E:"):
 		r := Const(fmt.Sprintf("cr?%d", k), SInt)
 		i := Const(fmt.Sprintf("ci?%d", k), SInt)
 		b := ex.ptrBound(Select(Select(h, r), i), typ, alloc)
-		return Forall([]*Term{r, i}, b)
+		if b == True {
+			return True
+		}
+		return Forall([]*Term{r, i}, Implies(And(Le(IntLit(0), r), Lt(r, alloc)), b))
 	case strings.HasPrefix(comp, "Mv:"):
 		r := Const(fmt.Sprintf("cr?%d", k), SInt)
 		i := Const(fmt.Sprintf("ci?%d", k), h.S.B.A)
 		b := ex.ptrBound(Select(Select(h, r), i), typ, alloc)
-		return Forall([]*Term{r, i}, b)
+		if b == True {
+			return True
+		}
+		return Forall([]*Term{r, i}, Implies(And(Le(IntLit(0), r), Lt(r, alloc)), b))
 	}
 	return True
 }
